@@ -222,5 +222,16 @@ let mut services: Vec<WorkerService> = Vec::new();
         decreases r9_q@.len(),
 //@end
 
+
+/// `impl<F: Fn() -> T, ..> ServerServiceFactory<I> for F`: a closure is a factory of factories — `create` IS one call of
+/// the user's closure (emitted as a free function: Verus has no blanket impls over `Fn`)
+//@extract file=actix-server/src/service.rs item="impl<F, T, I> ServerServiceFactory<I> for F / fn create" ret=r props=C01 name=service::fn_factory_create sig_replace="fn create(&self) -> (r: T)=>fn fn_factory_create<F: Fn() -> T, T>(this: &F) -> (r: T)"
+//@replace pattern="(self)()" rule=R8
+(this)()
+//@spec
+    requires call_requires(*this, ()),
+    ensures call_ensures(*this, (), r),     // [C01] exactly the factory the user's closure returns
+//@end
+
 } // verus!
 fn main() {}
